@@ -128,6 +128,7 @@ func runChat(r *Run, ackFocus bool) {
 	n := 2 + r.W.Pick(14)
 	var ops []*chatOp
 	stepwise := r.W.Pick(2) == 0
+	burst, burstPhase := r.W.Pick(4) == 0, r.W.Pick(5)
 	for i := 0; i < n; i++ {
 		op := &chatOp{}
 		kinds := []string{"chat", "cmd", "cmd", "cmd-signed", "ack", "cmd-unsigned"}
@@ -135,6 +136,10 @@ func runChat(r *Run, ackFocus bool) {
 			kinds = []string{"chat", "cmd", "cmd", "cmd", "cmd-signed", "cmd-unsigned"}
 		}
 		op.kind = kinds[r.W.Pick(len(kinds))]
+		if burst && ackFocus {
+			// an explicit acknowledgement directly followed by chat: both leave the proxy back to back
+			op.kind = []string{"ack", "chat", "chat", "ack", "cmd"}[(i+burstPhase)%5]
+		}
 		if op.kind == "cmd-unsigned" && !hasUnsigned {
 			op.kind = "cmd"
 		}
@@ -151,6 +156,9 @@ func runChat(r *Run, ackFocus bool) {
 			op.offset = []int{0, 0, 1, 2, 5, 19, 25}[r.W.Pick(7)]
 			if op.kind == "ack" && op.offset == 0 {
 				op.offset = 1 + r.W.Pick(30)
+			}
+			if op.kind == "ack" && (r.W.Pick(3) == 0 || burst) {
+				op.offset = 40 + r.W.Pick(25) // enough on its own to make the proxy forward an explicit acknowledgement
 			}
 		}
 		switch op.kind {
